@@ -292,13 +292,11 @@ pub fn class_of(c: char) -> &'static str {
 // lexer modes: (start_of_line, colon seen, indent>0) -> witness prefixes
 const W_PREFIXES: [&str; 14] = ["", "A", "A:", "A: ", "A:A", " ", " A", "A\n", "A:A\n ", "#", "# A\n", "\u{1}", "A:A:", "-"];
 const W_SUFFIXES: [&str; 6] = ["", "A", ":", "\n", " A", ":A\nA:A"];
-fn w_chars() -> Vec<char> {
+pub fn w_chars() -> Vec<char> {
     let mut chars: Vec<char> = (0u8..128).map(|b| b as char).collect();
-    chars.extend(['é', 'ü', 'ĳ', '€', '\u{2028}', '\u{a0}', '\u{85}', '😀', '\u{10ffff}', '\u{feff}']);
+    chars.extend(['é', 'ü', 'ĳ', '€', '\u{2028}', '\u{a0}', '\u{85}', '😀', '\u{10ffff}', '\u{feff}', '\u{80}', '\u{ff}', '\u{ffff}', '\u{3000}']);
     chars
 }
-/// every lexer-mode witness prefix x every ASCII char and some non-ASCII chars x suffix:
-/// these strings get the full C01 check as well (not only the class comparison).
 /// Lengths around the limits of the narrow integer types (a length or offset kept in a u8 / u16 wraps there).
 pub const WIDTH_LIMITS: [usize; 6] = [255, 256, 257, 65535, 65536, 65537];
 
@@ -320,6 +318,8 @@ pub fn long_token_docs() -> Vec<String> {
     v
 }
 
+/// every lexer-mode witness prefix x every ASCII char and some non-ASCII chars x suffix:
+/// these strings get the full C01 check as well (not only the class comparison).
 pub fn witness_strings() -> Vec<String> {
     let mut v = vec![];
     for p in W_PREFIXES {
